@@ -212,12 +212,23 @@ TRAMP = ["stubs/tramp_iauth.c"]
 IAUTH_UNWIND = ["--unwind", "4", "--unwinding-assertions", "--object-bits", "10", "--no-malloc-may-fail"]
 
 
+IAUTH_RULES = [
+    ("vp_unum", r"for \(i = 0; i < 20", 21), ("vp_unum", r"while \(v >= p10", 10), ("vp_unum", r"for \(i = 15", 17),
+    ("ctype_init", r"token_chars\[ii\]", 32), ("ctype_init", r"hex_digits\[ii\]", 18),
+    ("irc_pton", r"while \(ii < 8\) switch", 42), ("irc_pton_ip4", r"while \(1\) switch", 18),
+    ("irc_ntop", r"for \(max_start", 9), ("irc_ntop", r"for \(pos = 0, ii = 0", 9), ("irc_ntop", r"APPEND\(", 2),
+    ("vsnprintf", r"while \(\*fmt\)", 70), ("vsnprintf", r"while \(\*s\)", 81),
+    ("iauth_send", r"COLLECT\(", 70), ("iauth_x_query", r"COLLECT\(", 40), ("strtol", r"", 12), ("strtoul", r"", 12),
+]
+
+
 def IJ(id, prop, entry, remove, harness="harness/h_iauth_core.c", extra_props=(), **kw):
     """job on the IAuth unit: real function under proof, callees in `remove` replaced by their
     executable contracts (spec/iauth_model.h)"""
     d = dict(id=id, prop=prop, cls="proof", srcs=IAUTH_SRCS, stubs=IAUTH_STUBS, harness=harness, entry=entry,
              remove_bodies=list(remove), late_stubs=TRAMP, replaced_models=list(remove),
-             checks=["ptr", "ovf", "shift"], cbmc=IAUTH_UNWIND + kw.pop("cbmc", []), timeout=900, cost=2)
+             checks=["ptr", "ovf", "shift"], cbmc=IAUTH_UNWIND + kw.pop("cbmc", []), timeout=900, cost=2,
+             unwind_rules=IAUTH_RULES + kw.pop("unwind_rules", []), unwind_rules_optional=True)
     d.update(kw)
     d["replace_doc"] = list(remove)
     J(**d)
@@ -233,15 +244,25 @@ PROPS["C03"] = dict(level="proof", explanation="every state-changing step re-est
 GATE_CALLEES = ["iauth_accept", "iauth_soft_done"]
 IJ("C02.check_request", "C02", "h_check_request", GATE_CALLEES, functions=["iauth_check_request"], extra_props=("C01", "C03"))
 IJ("C01.accept", "C01", "h_accept", ["iauth_send", "notify_pre_registered", "parse_registered"], functions=["iauth_accept"],
-   cbmc=["--unwindset", "iauth_send.0:12"])
-IJ("C01.kill", "C01", "h_kill", ["iauth_send", "parse_registered"], functions=["iauth_kill"], cbmc=["--unwindset", "iauth_send.0:12"])
+   cbmc=[])
+IJ("C01.kill", "C01", "h_kill", ["iauth_send", "parse_registered"], functions=["iauth_kill"], cbmc=[])
 IJ("C01.quietly_kill", "C01", "h_kill", ["iauth_send", "parse_registered"], functions=["iauth_quietly_kill"], defines=["QUIET"],
-   cbmc=["--unwindset", "iauth_send.0:12"])
-IJ("C01.soft_done", "C01", "h_soft_done", ["iauth_send"], functions=["iauth_soft_done"], cbmc=["--unwindset", "iauth_send.0:12"])
+   cbmc=[])
+IJ("C01.soft_done", "C01", "h_soft_done", ["iauth_send"], functions=["iauth_soft_done"], cbmc=[])
 IJ("C03.timeout", "C03", "h_timeout", ["iauth_check_request"], functions=["iauth_timeout"], extra_props=("C02",))
 
 HANDLER_CALLEES = ["iauth_check_request", "iauth_send"]
 for h, fn in (("hostname", "parse_hostname"), ("no_hostname", "parse_no_hostname"), ("nick", "parse_nick"), ("ident", "parse_ident"),
               ("user_info", "parse_user_info"), ("password", "parse_password"), ("hurry_up", "parse_hurry_up")):
     IJ("C03.parse_" + h, "C03", "h_parse_" + h, HANDLER_CALLEES, functions=[fn], extra_props=("C01",),
-       cbmc=["--unwindset", "iauth_send.0:40,copy_ok.0:81,strncpy.0:81"])
+       cbmc=["--unwindset", "copy_ok.0:81,strncpy.0:81"])
+
+PROPS["C10"] = dict(level="proof", explanation="table bookkeeping: real handlers over the real set.c with the real disposal callback; timers by contract (S3)")
+TABLE_UNW = ["--unwind", "4", "--unwindset", "model_set_clear:2,sm_dispose:2,iauth_req_cleanup:2,set_clear:2,strchr.0:12"]
+SETM = ["set_first", "set_find", "set_insert", "set_remove", "set_clear"]
+SET_ASSUME = ["set.c is used through its contract (sorted map with disposal, spec/set_model.h); discharged for the real set.c in the C19 jobs, bounded by N elements"]
+IJ("C10.parse_registered", "C10", "h_parse_registered", ["iauth_send"] + SETM, assumptions=SET_ASSUME, functions=["parse_registered", "iauth_req_cleanup"], extra_props=("C01",), cbmc=TABLE_UNW, defines=["SET_MODEL_MAX=3"])
+IJ("C10.parse_disconnect", "C10", "h_parse_registered", ["iauth_send"] + SETM, assumptions=SET_ASSUME, functions=["parse_disconnect", "iauth_req_cleanup"], defines=["DISCONNECT", "SET_MODEL_MAX=3"],
+   extra_props=("C01",), cbmc=TABLE_UNW)
+IJ("C10.parse_new_client", "C10", "h_parse_new_client", ["iauth_send"] + SETM, assumptions=SET_ASSUME, functions=["parse_new_client", "iauth_req_cleanup"],
+   extra_props=("C01", "C04"), cbmc=TABLE_UNW, timeout=1500, defines=["SET_MODEL_MAX=3"])
